@@ -33,8 +33,8 @@ ASSUMPTIONS = [
     "the mixed system is [[W M_f, -div^T, 0], [div, 0, -c^T], [0, c, 0]] with diagonal flux block (class docstrings)",
 ]
 FLOORS = {
-    "quick": {"transposed_grid_solved_before": 30, "rhs_object_reused": 300, "second_grid_same_shape": 300, "tiny_weight_scale_systems": 250, "solves_same_system": 900, "satisfies_full_system": 900, "formulation_usable": 300, "end_to_end_same_distance": 100, "default_tolerance_relative_residual": 800},
-    "thorough": {"transposed_grid_solved_before": 100, "rhs_object_reused": 1000, "second_grid_same_shape": 1000, "tiny_weight_scale_systems": 700, "solves_same_system": 3000, "satisfies_full_system": 3000, "formulation_usable": 1000, "end_to_end_same_distance": 400, "default_tolerance_relative_residual": 2500},
+    "quick": {"end_to_end_bregman": 100, "transposed_grid_solved_before": 30, "rhs_object_reused": 300, "second_grid_same_shape": 300, "tiny_weight_scale_systems": 250, "solves_same_system": 900, "satisfies_full_system": 900, "formulation_usable": 300, "end_to_end_same_distance": 100, "default_tolerance_relative_residual": 800},
+    "thorough": {"end_to_end_bregman": 400, "transposed_grid_solved_before": 100, "rhs_object_reused": 1000, "second_grid_same_shape": 1000, "tiny_weight_scale_systems": 700, "solves_same_system": 3000, "satisfies_full_system": 3000, "formulation_usable": 1000, "end_to_end_same_distance": 400, "default_tolerance_relative_residual": 2500},
 }
 COMBOS = [("full", "direct"), ("flux_reduced", "direct"), ("pressure", "direct"), ("flux_reduced", "amg"), ("pressure", "amg"),
           ("flux_reduced", "cg"), ("pressure", "cg")]
@@ -274,6 +274,25 @@ def run_shard(spec, R):
                     # fluxes makes the pressure Schur complement singular): no distance to compare;
                     # the honesty of the reported status is C04's business
                     R.skip("end_to_end:iteration_failed:" + cap.swallowed[0][:40])
+        # the same for the split Bregman iteration with a penalty other than the default (its Darcy initialisation and
+        # its regular steps solve differently weighted systems with one solver object)
+        dists_b = {}
+        for ci, (formulation, backend) in enumerate(COMBOS):
+            key = known_key(formulation)
+            optb = wass.make_options(darsia, "bregman", "RAVIART_THOMAS", "CELL_BASED", formulation, backend, 0, 4, {"L": 4.0})
+            ok, wB = R.guarded("formulation_usable", lambda: darsia.WassersteinDistanceBregman(grid, None, optb), key=lambda e, w: key)
+            if ok:
+                capb = wass.Capture(wB)
+                ok, outb = R.guarded("end_to_end", lambda: wB(m1, m2), key=lambda e, w: key)
+                if ok and not capb.swallowed:
+                    dists_b[(formulation, backend)] = float(outb[0])
+        if ("full", "direct") in dists_b:
+            ref_b = dists_b[("full", "direct")]
+            for (formulation, backend), d in dists_b.items():
+                R.check(abs(d - ref_b) <= 1e-6 * max(abs(ref_b), 1e-300), "end_to_end_same_distance",
+                        {"shape": list(shape), "method": "bregman, L=4", "formulation": formulation, "backend": backend, "distance": d, "full_direct": ref_b},
+                        key=multilevel_key(formulation, backend, nc), group="bregman")
+                R.count("end_to_end_bregman")
         if ("full", "direct") in dists:
             ref_d = dists[("full", "direct")]
             for (formulation, backend), d in dists.items():
